@@ -79,11 +79,13 @@ def run(tier, seed, replay=None):
     if tier == "quick":
         cmds = ["%s small 2 | %s" % (hbin, runner)]
         cmds += ["%s random 12000 %d 7 | %s" % (hbin, seed * 100 + i, runner) for i in range(8)]
+        cmds += ["%s stack 15000 %d | %s" % (hbin, seed * 100 + 70 + i, runner) for i in range(2)]
         cmds += ["%s small 2 | %s --no-memchr" % (hbin_nm, runner)]
         cmds += ["%s random 12000 %d 7 | %s --no-memchr" % (hbin_nm, seed * 100 + 50 + i, runner) for i in range(3)]
     else:
         cmds = ["%s small 4 | %s" % (hbin, runner), "%s small 3 | %s --no-memchr" % (hbin_nm, runner)]
         cmds += ["%s random 150000 %d 8 | %s" % (hbin, seed * 100 + i, runner) for i in range(10)]
+        cmds += ["%s stack 200000 %d | %s" % (hbin, seed * 100 + 70 + i, runner) for i in range(2)]
         cmds += ["%s random 150000 %d 8 | %s --no-memchr" % (hbin_nm, seed * 100 + 50 + i, runner) for i in range(4)]
     cmds = ccmds + cmds
     outs = run_pipeline(cmds, timeout=3000)
@@ -132,7 +134,7 @@ def run(tier, seed, replay=None):
         "evaluations": stats.get("evaluations", 0),
         "distinct_nontrivial": stats.get("distinct_nontrivial", 0),
         "rule": "closure trees: all leaves, all unary wrappers of leaves and of two-leaf then/else chains, two-level wrappers around push/rule/tag cores, x all inputs of length <= 3 over {a,b,e-acute,B}; "
-                "plus random trees to depth 7 (with up to two named closures, error detail on for a third) x 3 random inputs each; both with memchr and without. "
+                "plus stack-heavy trees (distinct literals pushed/dropped across nested scopes forced to succeed or fail), plus random trees to depth 7 (with up to two named closures, error detail on for a third) x 3 random inputs each; both with memchr and without. "
                 "Non-trivial = a failing sequence or any look-ahead whose body had changed position, queue or stack before it was undone; distinct by case text.",
         "samples": ["lim=- det=0 in=6162 env=- prog=(seq (then (push (str 61)) (then (rule 2 (str 62)) err)))",
                     "lim=- det=1 in=61c3a9 env=(rule 1 (str 61)) prog=(look ! (then (call 0) (range 97 122)))"],
